@@ -4,6 +4,6 @@ tier=${1:-quick}
 cd /verif
 for p in $(/venv/bin/python -c "import json; print(' '.join(c['property_id'] for c in json.load(open('MANIFEST.json'))['checks']))"); do
   s=$(date +%s)
-  ./check $p --tier $tier > /var/tmp/run_all.$p.$tier.log 2>&1; rc=$?
+  timeout ${RUN_ALL_TIMEOUT:-3600} ./check $p --tier $tier > /var/tmp/run_all.$p.$tier.log 2>&1; rc=$?
   echo "$p rc=$rc $(( $(date +%s) - s ))s $(grep -c '^VIOLATION' /var/tmp/run_all.$p.$tier.log) violation(s) $(grep -c '^KNOWN-FINDING' /var/tmp/run_all.$p.$tier.log) known | $(tail -1 /var/tmp/run_all.$p.$tier.log | cut -c1-160)"
 done
